@@ -28,10 +28,16 @@ with concurrent.futures.ThreadPoolExecutor(max_workers=6) as ex:
     for name, rc, lines in ex.map(one, dirs):
         mp = "/verif/seeded/%s/meta.json" % name
         m = json.load(open(mp))
-        m["own_check_final"] = {"rc": rc, "lines": lines}
-        cb = set(m.get("caught_by", []))
-        if rc == 1:
-            cb.add(m["property"])
-        m["caught_by_final"] = sorted(cb)
+        seed = os.environ.get("VERIF_SEED")
+        if seed not in (None, "", "0"):
+            # robustness pass with another seed: recorded separately, the table keeps the seed-0 outcome
+            m.setdefault("own_check_other_seeds", {})[seed] = rc
+        else:
+            m["own_check_final"] = {"rc": rc, "lines": lines}
+            cb = set(m.get("caught_by_final") or m.get("caught_by", []))
+            cb.discard(m["property"])
+            if rc == 1:
+                cb.add(m["property"])
+            m["caught_by_final"] = sorted(cb)
         json.dump(m, open(mp, "w"), indent=1)
         print(name, "own rc=%s" % rc, (lines[:1] or [""])[0][:120])
